@@ -429,7 +429,7 @@ SALL = ["flavour", "d0", "d1", "d2", "d3", "d4", "d5", "bo", "t0", "t1", "t2", "
 
 def harnesses(tier: str) -> List[H]:
     out = []  # type: List[H]
-    depth = 4 if tier == "quick" else 6
+    depth = 4 if tier == "quick" else 5
     for flavour, fname in enumerate(["def", "async_def", "abstractmethod"]):
         for d0 in range(5):
             params = [I("d%d" % i, 0, 4) for i in range(1, depth)] + [I("bo", 0, 2)] + \
